@@ -12,7 +12,7 @@ NOTES = ("Technique family: static analysis. A rustc_private driver (driver/, ni
 ENGINES = [
     {"name": "linfa-facts", "path": "driver/", "serves_properties": [], "kind_free_text": "rustc_private compiler driver: typed HIR + MIR + item facts as JSON"},
     {"name": "sym", "path": "rules/sym.py", "serves_properties": [], "kind_free_text": "symbolic value numbering over typed HIR (polynomial normal form, slice regions, guard stacks, wrapper inlining)"},
-    {"name": "shared-analyses", "path": "rules/", "serves_properties": [], "kind_free_text": "influence.py (per-path data dependence), linalg.py (non-commutative normal form), calc.py (rational functions, symbolic derivative), layout.py / inplace.py / rowindex.py / stale.py / cancel.py / extrema.py / units.py / lse.py / taint.py (structural rules shared by several properties)"},
+    {"name": "shared-analyses", "path": "rules/", "serves_properties": [], "kind_free_text": "influence.py (per-path data dependence), linalg.py (non-commutative normal form), calc.py (rational functions, symbolic derivative), layout.py / inplace.py / rowindex.py / stale.py / cancel.py / extrema.py / units.py / lse.py / taint.py / carry.py (value semantics of Clone and builders) / precision.py (f32 narrowing in generic-float code) (structural rules shared by several properties)"},
 ]
 
 _T = "static analysis over compiler-resolved facts (typed HIR/MIR from a rustc_private driver)"
@@ -26,6 +26,7 @@ CLAIMED = {
                 "len/size blocks; "
                 "cross_validate accumulates once per (fold, model) and divides by k; fit/eval errors propagate. The row widths that cut the raw buffers (ntargets, nfeatures) depend on the target / record arrays on every path, never on the name lists; fold's chunk lists cover every sample (a truncated chunk sequence needs the left-over rows put back under the test 'rows are left over'). "
             "DatasetBase::nsamples depends on the records only (never on the weights). "
+            "exact_chunks (which drops the short last chunk) counts as a truncated chunk sequence. "
             "Not decided: "
                 "numeric block boundaries for particular (n,k), multiset equality of rows.",
         "design_ref": "DESIGN.md section 4, C01",
@@ -44,7 +45,7 @@ CLAIMED["C02"] = {
             "name at the collapsed index; the raw-buffer split of owned data is dominated by a standard-layout test; every index vector handed to select(Axis(a), ..) is a permutation of, or draws "
             "from, exactly 0..extent(a), and the ratio split point is ceil(nsamples as f32 * ratio). Raw memory-order buffers (as_slice_memory_order, into_raw_vec, as_ptr) anywhere in the dataset and composing code are used by position only behind an is_standard_layout() test (or on arrays created in the same function), and exact-chunk iteration never drops a remainder. "
             "Records::nsamples / nfeatures of an array are axis extents on every path (a (0, k) matrix has k features); binary_search never runs directly on a caller-supplied slice. "
-            "CountedTargets values are built by counting the targets they wrap (CountedTargets::new, or a count incremented in the same loop that collects them). "
+            "CountedTargets values are built by counting the targets they wrap (CountedTargets::new, or a count incremented in the same loop that collects them, in maps that start empty); a cache taken from another container's counts is a violation, one assembled by hand is left undecided. "
             "Not decided: multiset equality of rows as values.",
     "design_ref": "DESIGN.md section 4, C02",
     "note": "Trusted: rustc resolution/typeck, the fact dump, documented semantics of ndarray selection methods and Vec::split_off.",
@@ -58,7 +59,7 @@ CLAIMED["C03"] = {
             "every default_target sizes its leading extent from the batch rows; a batch-axis abstract interpretation finds no "
             "reduction/statistic/selection along the batch axis or over all elements, no reshape of the batch, no raw-layout access "
             "and no mutable state carried across rows on any predict path (helpers followed to depth 6, their results carrying the batch axis back to the caller; also for the scalers' and "
-            "whiteners' transforms); model types contain no interior mutability; the composing wrappers follow their parts (the running arg-max replaces label and incumbent probability together). Not "
+            "whiteners' transforms); model types contain no interior mutability; the composing wrappers follow their parts (the running arg-max replaces label and incumbent probability together; MultiClassModel's constructors keep every member - no keyed container or dropping adaptor on the member list; Pr::try_from, the range check behind Pr::new, rejects NaN when evaluated abstractly with a NaN argument). Not "
             "decided: equality of floating-point roundings between batch and single-row evaluation.",
     "design_ref": "DESIGN.md section 4, C03",
     "note": "Trusted: rustc resolution/typeck, the fact dump; ndarray's elementwise ops, dot and row iterators are row-local.",
@@ -76,6 +77,7 @@ CLAIMED["C04"] = {
             "No computation on a predict path branches on the number of rows of the batch (other than an exit); required trait methods called on a generic Self are followed into every implementation; the multi-class incumbent label is a member's label from the start. "
             "Builder methods store their arguments unchanged (no clamp / filter / rounding / arithmetic between argument and field), and builder methods that rebuild the parameter struct (with_rng) carry every field over from self. "
             "An unsigned parameter is not subtracted from before it is tested (overflow instead of the documented error). "
+            "Hand-written Clone impls of the parameter sets and models copy every field (derived ones do by construction), no builder method resets another user-settable field to a value that does not depend on its argument, and builder methods that rebuild the struct carry every field; the dominating check may be `check_ref()?`, a map/and_then on its result, the Ok arm of a match on it, or an Err arm that returns first. "
             "Not decided: behaviour of training on valid parameters.",
     "design_ref": "DESIGN.md section 4, C04",
     "note": "Trusted: rustc resolution/typeck, the fact dump, the documented range table frozen in rules/c04.py (one source reference per row). NaN/infinite parameter values are outside the claim, as in the property.",
@@ -93,6 +95,7 @@ CLAIMED["C07"] = {
             "consistent with one reduced degree (a squared distance returned as a distance is degree 2); no query answers Ok before its dimension test. Raw memory-order buffers of the stored batch are used by position only behind a standard-layout test. "
             "A ball-tree node's radius is computed over every point of the node; rdistance overrides that delegate to another metric inherit that metric's reduced degree, and exponents that are truncated copies of the metric's exponent are rejected; coordinate differences carry the unit of distances. "
             "No distance in linfa-nn is computed through the expanded square |a|^2 + |b|^2 - 2<a,b> (cancellation-prone away from the origin, so that path would disagree with the ones using the metric's rdistance). "
+            "The dimension test of a query runs outside the loop over the stored points (an empty index must reject a malformed query too); the index types contain no interior mutability (a query cannot change the answer to the next); in linfa-nn no generic-float / f64 value is narrowed to f32 and stored, and no f32 arithmetic over converted values is widened back into the generic float. "
             "Not decided: geometric sufficiency of pruning bounds, k-NN ties.",
     "design_ref": "DESIGN.md section 4, C07",
     "note": "Trusted: rustc resolution/typeck, the fact dump (also of the locked kdtree dependency), consistency of each metric's four Distance methods.",
@@ -108,6 +111,7 @@ CLAIMED["C08"] = {
             "below min_points; OPTICS inserts a sample into `processed` in the same step in which it appends it to the ordering. Independence from the index kind further "
             "relies on C07. OPTICS picks the next seed from a canonically ordered list (a total sort on the indices before the pick, or an index tie-break), so ties in reachability do not expose the neighbour index's order; the radius relation of the three index kinds (C07) is checked here too. "
             "The DBSCAN scan over the samples is never left early; OPTICS collects seeds only from a sample it has already listed; the unit rule of C07 runs here too (a coordinate pre-filter compared with a reduced radius). "
+            "No `dedup()` on a list whose element type's hand-written PartialEq ignores fields (OPTICS' Sample compares by reachability only). Hand-written Clone impls of the parameter sets and models copy every field (derived ones do by construction), no builder method resets another user-settable field to a value that does not depend on its argument, and builder methods that rebuild the struct carry every field; no generic-float / f64 value is narrowed to f32 and stored, and no f32 arithmetic over converted values is widened back into the generic float. "
             "Not decided: OPTICS reachability values, border-point labels.",
     "design_ref": "DESIGN.md section 4, C08",
     "note": "Trusted: rustc resolution/typeck, the fact dump.",
@@ -123,6 +127,7 @@ CLAIMED["C09"] = {
             "reassignment in between on any path; every call of the scan or of the update helpers passes the model's / parameter "
             "set's own metric; an initialiser that returns a zero-allocated centroid matrix fills it in loops without early exit. A best-of-n loop that saves state when a candidate beats the incumbent also updates the incumbent (fit_with's initialisation candidates included); exact-chunk iteration over per-sample buffers never drops a remainder and raw buffers are used by position only behind a layout test. "
             "A distance scan over the centroids is left early only on a distance of exactly zero; every model literal a fit path returns takes cluster_count from a computed assignment; the metric's degree rule of C07 runs here too. "
+            "Hand-written Clone impls of the parameter sets and models copy every field (derived ones do by construction), no builder method resets another user-settable field to a value that does not depend on its argument, and builder methods that rebuild the struct carry every field; no generic-float / f64 value is narrowed to f32 and stored, and no f32 arithmetic over converted values is widened back into the generic float. "
             "Not decided: cost monotonicity, bounding box, numeric inertia values.",
     "design_ref": "DESIGN.md section 4, C09",
     "note": "Trusted: rustc resolution/typeck, the fact dump, Distance::rdistance being the reduced distance of the configured metric.",
@@ -140,6 +145,7 @@ CLAIMED["C10"] = {
             "reads the raw responsibility masses and the log-sum-exp shifts every row by its own maximum. "
             "The triangular factor stored in precisions_chol (writer) and its uses in compute_precisions_full and in the Mahalanobis term (readers) agree on its orientation - transposition parities read from the three sites; the best-of-n-restarts incumbent is updated with the state it guards. "
             "reg_covar is added to the covariance diagonal after the normalisation by the component mass (nothing rescales the block afterwards). "
+            "The fold that takes the row maximum for the shift starts from -infinity / min_value or from data. Hand-written Clone impls of the parameter sets and models copy every field (derived ones do by construction), no builder method resets another user-settable field to a value that does not depend on its argument, and builder methods that rebuild the struct carry every field; no generic-float / f64 value is narrowed to f32 and stored, and no f32 arithmetic over converted values is widened back into the generic float. "
             "Not decided: positive definiteness, weights summing to one.",
     "design_ref": "DESIGN.md section 4, C10",
     "note": "Trusted: rustc resolution/typeck, the fact dump.",
@@ -157,6 +163,7 @@ CLAIMED["C12"] = {
             "computed from the penalty strength alpha - a path-enumerating influence analysis; log-sum-exp shifts per row; no "
             "quotient has an unguarded exponential of the score above and below the line. For every link, inverse_derivative is the symbolic derivative of inverse (element-wise maps read into rational functions over x, exp, ln and differentiated by a small computer algebra), so the chain rule in the gradient differentiates the function the cost evaluates. "
             "Every value path of the unit-deviance derivative is computed from the predicted mean; the L-BFGS solver is configured with the gradient tolerance only (no cost-change stopping rule). "
+            "The Tweedie target-range error is returned unconditionally (not under a configuration switch such as fit_intercept); max folds of the shifts start from their identity element. Hand-written Clone impls of the parameter sets and models copy every field (derived ones do by construction), no builder method resets another user-settable field to a value that does not depend on its argument, and builder methods that rebuild the struct carry every field; no generic-float / f64 value is narrowed to f32 and stored, and no f32 arithmetic over converted values is widened back into the generic float. "
             "Not decided: stationarity of the "
             "returned point beyond these necessary conditions, numeric range of probabilities.",
     "design_ref": "DESIGN.md section 4, C12",
@@ -173,6 +180,7 @@ CLAIMED["C16"] = {
             "branch on element values), so it is the fitted affine map on unseen rows too; every running column extremum starts from the identity element "
             "of its own operation. No field of a fitted scaler/whitener is computed from another stored field that is mutated before the model is built; raw buffers are used by position only behind a layout test. "
             "A builder call that keeps a part only on some path (conditional reset of the weights) counts as dropping it. "
+            "Hand-written Clone impls of the parameter sets and models copy every field (derived ones do by construction), no builder method resets another user-settable field to a value that does not depend on its argument, and builder methods that rebuild the struct carry every field; no generic-float / f64 value is narrowed to f32 and stored, and no f32 arithmetic over converted values is widened back into the generic float. "
             "Not decided: achieved means, variances, covariances.",
     "design_ref": "DESIGN.md section 4, C16",
     "note": "Trusted: rustc resolution/typeck, the fact dump. Divisions by singular values in the whiteners are outside the rule (the property claims whitening on full-rank data only).",
@@ -186,7 +194,8 @@ CLAIMED["C18"] = {
             "non-commutative normal form over dot/+/-/t, exactly x.E^T.E - m.E^T.E + m, the projection about the mean; the variance ratio does not inherit a divisor that "
             "vanishes for one component. "
             "Pca::predict_inplace overwrites the caller's buffer (no accumulation into it); no field of the fitted model is computed from another stored field that is mutated (whitening rescale) before the model is built. "
-            "Every value path of explained_variance_ratio is computed from the singular values; DatasetBase::nsamples (the n of the whitening scale) depends on the records only. "
+            "Every value path of explained_variance_ratio is computed from the singular values (directly or through another method of the model); DatasetBase::nsamples (the n of the whitening scale) depends on the records only. "
+            "Pca::predict_inplace uses the batch row by row only: no reduction along the batch axis (a batch mean in the centring) enters the projection. Hand-written Clone impls of the parameter sets and models copy every field (derived ones do by construction), no builder method resets another user-settable field to a value that does not depend on its argument, and builder methods that rebuild the struct carry every field; no generic-float / f64 value is narrowed to f32 and stored, and no f32 arithmetic over converted values is widened back into the generic float. "
             "Not decided: orthonormality, ordering, spectral optimality, whitening covariance.",
     "design_ref": "DESIGN.md section 4, C18",
     "note": "Trusted: rustc resolution/typeck, the fact dump; the feature=blas branch cannot be built offline and is not analysed.",
@@ -204,6 +213,7 @@ CLAIMED["C13"] = {
             "before the first write; running bounds that start at +/-infinity are tightened by min/max respectively and every "
             "branch of calculate_rho feeds y_i*G_i. The maintenance of gradient_fixed in update() ranges over all ntotal() positions (loop bounds and lengths of zipped kernel columns); a nu-classification hyperplane is rescaled with rho. "
             "The training kernel matrix is filled from KernelMethod::distance, the function prediction evaluates, not from a separate expanded-square formula. "
+            "Problem set-ups are cross-checked against the solver kind: a nu formulation with two classes of variables (nu-SVC, nu-SVR) requests the nu-constrained solver, every other one the plain solver (the nu-SVR set-up of the pinned tree does not: known finding); the two running bounds of calculate_rho[_nu] are combined only under a finiteness test (one of them is still infinite when no variable of one kind exists, nu = 1); when solve() repeats the working-set selection and replaces the pair, no component of the first selection stays in use. Hand-written Clone impls of the parameter sets and models copy every field (derived ones do by construction), no builder method resets another user-settable field to a value that does not depend on its argument, and builder methods that rebuild the struct carry every field; no generic-float / f64 value is narrowed to f32 and stored, and no f32 arithmetic over converted values is widened back into the generic float. "
             "Not decided: KKT conditions, rho, objective values.",
     "design_ref": "DESIGN.md section 4, C13",
     "note": "Trusted: rustc resolution/typeck, the fact dump; the index-space tags are inferred from the code's own swap(); sibling rules were confirmed against the reference SMO algorithm.",
@@ -221,6 +231,7 @@ CLAIMED["C14"] = {
             "sequence divided by its own sum. Every weight_for(i) receives a row index (an enumerate() index taken before any filter/skip/rev of the sample sequence); gini and entropy compare a class weight with zero only (thresholds apply to proportions: scale invariance in the sample weights). "
             "A filtered sample sequence is never zipped with a per-sample container walked from its start; the arg-max over class weights compares them exactly (no rounding, integer conversion or tolerance); DecisionTreeParams' builder methods store the limits exactly as given. "
             "No limit is compared through a truncating copy (`as usize`, round / floor). "
+            "The stop test may sit in a helper (its match / if value is read as the exit condition). Hand-written Clone impls of the parameter sets and models copy every field (derived ones do by construction), no builder method resets another user-settable field to a value that does not depend on its argument, and builder methods that rebuild the struct carry every field; no generic-float / f64 value is narrowed to f32 and stored, and no f32 arithmetic over converted values is widened back into the generic float. "
             "Not decided: impurity arithmetic, leaf majorities, importances.",
     "design_ref": "DESIGN.md section 4, C14",
     "note": "Trusted: rustc resolution/typeck, the fact dump.",
@@ -238,6 +249,7 @@ CLAIMED["C19"] = {
             "vectorisers. Holds for every "
             "value of every such type. In crates with a serialised regex no RegexBuilder option is set, so every compiled expression is determined by the pattern text that is serialised. "
             "`deserialize_with` adapters are found through the nested __DeserializeWith impls of the generated visitors. "
+            "For every enum, the variant index the generated Serialize writes equals the index under which the generated identifier visitor restores the same variant (a skipped variant in the middle shifts one side only); every public tokenising method of the serialisable *checked* vectoriser parameters tests the tokenizer guard first; hand-written Clone impls copy every field (the guard included). "
             "Not decided: bit-level behaviour of third-party serialisers.",
     "design_ref": "DESIGN.md section 4, C19",
     "note": "Trusted: serde_derive's expansion (the pinned version's output is what is analysed), serde impls of std/ndarray/sprs/rand_xoshiro/serde_regex, the format crate.",
@@ -251,7 +263,7 @@ CLAIMED["C20"] = {
             "containers, a sort that is total on the unique key, an arg-extremum whose comparator falls back on the key); no "
             "entropy source is called outside the exclusions the property names; every RNG is seeded from a literal or a "
             "caller-supplied seed; every rayon construct writes only through its own per-element parameters and performs no "
-            "parallel float reduction. A comparator that decides ties through arithmetic (tolerance bands, rounded keys) or through an unread local closure is not accepted as total; rayon constructs with per-split state (map_init & co.) must not create generators or counters in that state; Labels::labels no longer hands hash order to callers (allow-list entry removed). "
+            "parallel float reduction. A lexicographic sort key over hash-map entries ranks no value component that was numbered in hash-iteration order (`map.insert(k, (map.len(), ..))` inside a loop over a hash container, found workspace-wide) before the unique map key; the first element of a hash iterator may seed an incumbent only if every replacement is governed by a total predicate. A comparator that decides ties through arithmetic (tolerance bands, rounded keys) or through an unread local closure is not accepted as total; rayon constructs with per-split state (map_init & co.) must not create generators or counters in that state; Labels::labels no longer hands hash order to callers (allow-list entry removed). "
             "Not decided: floating-point identity across machines, third-party internals.",
     "design_ref": "DESIGN.md section 4, C20",
     "note": "Trusted: rustc resolution/typeck, the fact dump; third-party crates draw entropy only through the listed APIs. Allow-list entries are single symbols with a reason (rules/c20.py).",
